@@ -174,6 +174,12 @@ func (p *Parser) ParseReader(r io.Reader, args ...any) (data any, err error) {
 	eof := false
 	var cnt int
 	cnt, err = r.Read(buf)
+	// A BOM must not be missed because it is split across reads.
+	for err == nil && 0 < cnt && cnt < 4 && buf[0] == 0xEF {
+		var n int
+		n, err = r.Read(buf[cnt:])
+		cnt += n
+	}
 	buf = buf[:cnt]
 	p.mode = valueMap
 	if err != nil {
